@@ -104,6 +104,7 @@ class StmtMixin:
                 self.set_field(base, target.attr, v)
                 return
             if isinstance(base, VElem):
+                self.check_at(st, fr, "store:" + target.attr, v)
                 p = self.mut_payload(base.lst)
                 if target.attr not in p.fields:
                     raise Unsupported(f"record field {target.attr}")
